@@ -4,6 +4,11 @@ go 1.23
 
 toolchain go1.23.5
 
+// The library's own go.mod says go 1.21, so programs whose main module is of that vintage (and the library's own test
+// suite) run with the old timer channels: a timer that has fired keeps its tick buffered across Stop and Reset. The checks
+// ask for the same semantics, so that the library's handling of its timers is exercised the way those users see it.
+godebug asynctimerchan=1
+
 require (
 	github.com/failsafe-go/failsafe-go v0.0.0
 	google.golang.org/grpc v1.67.1
